@@ -5,3 +5,4 @@ open LhasaV.Props.C03
 #print axioms null_identity
 #print axioms lz5_fill_eq_closed_form
 #print axioms ring_copy_refines
+#print axioms lz_init_matches_source
